@@ -108,6 +108,8 @@ def make(cfg, pool):
         c.register_unstructure_hook(types.Position, lambda p: {"line": p.line, "character": p.character, "userHook": True})
         pool.append(c)
         return converters.get_converter(c)
+    if cfg == "deep":
+        raise ValueError("deep is a sweep, handled by run_hist")
     if cfg == "same_again":
         if not pool:
             c = alloc(cattrs.Converter)
@@ -273,6 +275,38 @@ def run_sched(schedule, battery):
     return {"events": events, "forced": forced, "deviated": deviated, "nfilter": nfilter, "nres": nres}
 
 
+def deep_sweep():
+    """-> [(ok, converter or None, exception name)] for get_converter() at 4, 8, ... frames of head room."""
+    from lsprotocol import converters
+    out = []
+    limit = sys.getrecursionlimit()
+
+    def descend(n):
+        if n <= 0:
+            return converters.get_converter()
+        return descend(n - 1)
+
+    def depth_now():
+        f, d = sys._getframe(), 0
+        while f is not None:
+            d += 1
+            f = f.f_back
+        return d
+    succeeded = 0
+    for room in range(4, 200, 3):
+        try:
+            conv = descend(limit - depth_now() - room)
+            out.append((True, conv, ""))
+            succeeded += 1
+            if succeeded >= 2:
+                break
+        except RecursionError:
+            out.append((False, None, "RecursionError"))
+        except BaseException as e:  # noqa: BLE001
+            out.append((False, None, type(e).__name__))
+    return out
+
+
 def run_hist(history, battery):
     import gc
     from lsprotocol import types
@@ -288,6 +322,19 @@ def run_hist(history, battery):
             conv = c = None        # the loop variable of the probing loop below still names the last converter
             gc.collect()
             events.append({"e": "Drop", "conv": name, "cfg": cfg, "ok": True, "exc": ""})
+            continue
+        if cfg == "deep":
+            # get_converter() called with very little stack left, again and again with a little more: each call may die
+            # of RecursionError anywhere inside the package (an environment fault, not a verdict) - what matters is
+            # what every LATER converter does
+            for k, (ok, c2, exc) in enumerate(deep_sweep()):
+                nm = "%s.%d" % (name, k)
+                events.append({"e": "Create", "conv": nm, "cfg": "deep", "ok": ok, "exc": exc, "env_fault": not ok})
+                if ok:
+                    convs.append((nm, c2, "d"))
+            c2 = None
+            for cname, c, cc in convs:
+                events.extend(probe_events(cname, cc, c, types, battery))
             continue
         try:
             prev = {id(c): cc for _, c, cc in convs}
